@@ -1534,3 +1534,47 @@ Proof.
   destruct H as [H1 H2]. apply IH; [|apply step_no_text; assumption|exact H2].
   apply step_wf; [exact W|]. apply op_safe_repaired. apply plain_args_ok; assumption.
 Qed.
+
+(* ================================================================== Data.copy onto any parent *)
+Lemma fill_masked_length nd : forall m v, length m = length v -> length (fill_masked nd m v) = length v.
+Proof. induction m as [|b m IH]; intros [|x v] L; simpl in *; try discriminate; auto. Qed.
+
+Lemma fill_masked_nth nd : forall m v i b x, nth_error m i = Some b -> nth_error v i = Some x ->
+  nth_error (fill_masked nd m v) i = Some (if b then x else nd).
+Proof.
+  induction m as [|c m IH]; intros [|y v] [|i] b x Hm Hv; simpl in *; try discriminate.
+  - injection Hm as <-. injection Hv as <-. reflexivity.
+  - apply IH; assumption.
+Qed.
+
+(* target with fewer elements than the source array: the kept entries, compacted (then the target's pad / reject rule);
+   target with at least as many: every kept element stays at its own index, the others are no-data (then padded at the tail) *)
+Lemma data_copy_any_parent fl n m k k' v : kvals k = Some v -> data_copy fl n (Some m) k = Ok k' ->
+  length m = length v /\
+  (n < length v -> exists v'', format_length n (kkind k) (kassoc k) (select m v) = Ok v'' /\ kvals k' = Some v'') /\
+  (length v <= n -> exists tail, kvals k' = Some (fill_masked (ndv (kkind k)) m v ++ tail) /\
+     forall i b x, nth_error m i = Some b -> nth_error v i = Some x ->
+       nth_error (fill_masked (ndv (kkind k)) m v ++ tail) i = Some (if b then x else ndv (kkind k))).
+Proof.
+  intros Hv. unfold data_copy. rewrite Hv.
+  destruct (Nat.eqb (length m) (length v)) eqn:E; simpl; [|discriminate]. apply Nat.eqb_eq in E.
+  destruct (negb (n <? length v) && dkind_eqb (kkind k) KText && negb (f_copy_text fl)); [discriminate|].
+  destruct (n <? length v) eqn:Lt.
+  - apply Nat.ltb_lt in Lt.
+    destruct (format_length n (kkind k) (kassoc k) (select m v)) as [v''|] eqn:F; [|discriminate].
+    destruct (text_empty (kkind k) v''); [discriminate|]. intros H; injection H as <-. simpl.
+    split; [exact E|]. split; [intros _; exists v''; auto|intros H; lia].
+  - apply Nat.ltb_ge in Lt.
+    destruct (format_length n (kkind k) (kassoc k) (fill_masked (ndv (kkind k)) m v)) as [v''|] eqn:F; [|discriminate].
+    destruct (text_empty (kkind k) v''); [discriminate|]. intros H; injection H as <-. simpl.
+    split; [exact E|]. split; [intros H; lia|]. intros _.
+    assert (Lf : length (fill_masked (ndv (kkind k)) m v) = length v) by (apply fill_masked_length; exact E).
+    assert (T : exists tail, v'' = fill_masked (ndv (kkind k)) m v ++ tail).
+    { unfold format_length in F. rewrite Lf in F. destruct (length v <? n) eqn:E2.
+      - destruct (kkind k); injection F as <-; try (eexists; reflexivity); exists []; rewrite app_nil_r; reflexivity.
+      - destruct (n <? length v) eqn:E3; [apply Nat.ltb_lt in E3; lia|]. simpl in F. injection F as <-.
+        exists []. rewrite app_nil_r. reflexivity. }
+    destruct T as [tail ->]. exists tail. split; [reflexivity|].
+    intros i b x Hm Hx. rewrite nth_error_app1 by (rewrite Lf; apply nth_error_Some; congruence).
+    apply fill_masked_nth; assumption.
+Qed.
